@@ -216,7 +216,7 @@ def msg_type_decoders(F):
         if b_.kind != 'fn' or b_.argc != 1 or b_.local_ty(1) != 'u8' or '::tests' in p_:
             continue
         rt = b_.local_ty(0)
-        if 'protocol::MessageType' in rt and rt.startswith(('std::result::Result<protocol::MessageType', 'std::option::Option<protocol::MessageType')):
+        if re.match(r'^std::(?:result::Result|option::Option)<(?:\w+::)*MessageType\b', rt):      # (wherever the type lives now)
             cands[p_] = b_
     tables = set()
     for p_, b_ in cands.items():
